@@ -31,6 +31,7 @@ rev 09d730b F17 C02 C05
 rev 84b7197 F18 C15 C14
 rev 53e5464 F19 C15 C02
 rev 6245a1e F20 C15
+rev 44135f7 F21 C11
 for d in /verif/seeded/*/; do
   id=$(basename $d)
   props=$(python3 -c "import json;print(' '.join(json.load(open('$d/meta.json')).get('caught_by') or []))")
